@@ -880,7 +880,9 @@ PPL::Grid::is_discrete() const {
     return true;
   }
   // Search for lines in the generator system.
-  for (dimension_type row = gen_sys.num_rows(); row-- > 1; ) {
+  // Note: the first row need not be the point (only minimized systems
+  // are guaranteed to start with it).
+  for (dimension_type row = gen_sys.num_rows(); row-- > 0; ) {
     if (gen_sys[row].is_line()) {
       return false;
     }
